@@ -21,23 +21,23 @@ Section Total.
 
   (** every model maps blocks satisfying P to blocks satisfying P *)
   Definition feature_preserves (f : feature) : Prop :=
-    forall q p t blk, Forall P blk -> Forall P (fst (ft_paint f q p t blk)).
+    forall q wt p t blk, Forall P blk -> Forall P (fst (ft_paint f q wt p t blk)).
 
-  Lemma paint_slot_preserves f q st pe : feature_preserves f -> Forall P (fst st) -> Forall P (fst (paint_slot f q st pe)).
+  Lemma paint_slot_preserves f q wt st pe : feature_preserves f -> Forall P (fst st) -> Forall P (fst (paint_slot f q wt st pe)).
   Proof.
     intros Hf Hs. unfold paint_slot. destruct st as [out t]. destruct pe as [p off].
-    destruct (ft_paint f q p t (slice off (width p) out)) as [b t'] eqn:E. cbn [fst] in *.
+    destruct (ft_paint f q wt p t (slice off (width p) out)) as [b t'] eqn:E. cbn [fst] in *.
     apply Forall_blit; [|exact Hs].
-    specialize (Hf q p t (slice off (width p) out) (Forall_slice _ _ _ Hs)). rewrite E in Hf. exact Hf.
+    specialize (Hf q wt p t (slice off (width p) out) (Forall_slice _ _ _ Hs)). rewrite E in Hf. exact Hf.
   Qed.
 
-  Lemma fold_paint_preserves f q regs : feature_preserves f -> forall st, Forall P (fst st) -> Forall P (fst (fold_left (paint_slot f q) regs st)).
+  Lemma fold_paint_preserves f q wt regs : feature_preserves f -> forall st, Forall P (fst st) -> Forall P (fst (fold_left (paint_slot f q wt) regs st)).
   Proof.
     intros Hf. induction regs as [|pe r IH]; intros st Hs; cbn [fold_left]; [exact Hs|].
     apply IH. apply paint_slot_preserves; assumption.
   Qed.
 
-  Lemma feature_apply_preserves q regs st f : feature_preserves f -> Forall P (fst st) -> Forall P (fst (feature_apply q regs st f)).
+  Lemma feature_apply_preserves q wt regs st f : feature_preserves f -> Forall P (fst st) -> Forall P (fst (feature_apply q wt regs st f)).
   Proof. intros Hf Hs. unfold feature_apply. destruct (ft_covers f q); [apply fold_paint_preserves; assumption | exact Hs]. Qed.
 
   Lemma init_block_preserves w g depth p :
@@ -69,17 +69,18 @@ Section Total.
     properties3d w pos depth ps t = Err Throw \/
     exists out t', properties3d w pos depth ps t = Ok (out, t') /\ Forall P out.
   Proof.
-    intros H0 H1 Hs Ha Hf. unfold properties3d.
-    destruct (init_from w (q_g (mk_query w pos depth)) depth ps []) as [out0 regs] eqn:E.
+    intros H0 H1 Hs Ha Hf. unfold properties3d, properties_at. cbn [mk_query q_depth q_g].
+    set (wt := fun _ : unit => world_temperature w (mk_query w pos depth)).
+    destruct (init_from w (w_gravity w) depth ps []) as [out0 regs] eqn:E.
     match goal with |- context [if ?c then _ else _] => destruct c end; [left; reflexivity|].
     right.
     set (q := mk_query w pos depth) in *.
     assert (Hout0 : Forall P out0).
-    { pose proof (init_from_preserves w (q_g q) depth H0 H1 Hs Ha ps [] (Forall_nil _)) as H. rewrite E in H. exact H. }
-    assert (G : forall fs st, Forall feature_preserves fs -> Forall P (fst st) -> Forall P (fst (fold_left (feature_apply q regs) fs st))).
+    { pose proof (init_from_preserves w (w_gravity w) depth H0 H1 Hs Ha ps [] (Forall_nil _)) as H. rewrite E in H. exact H. }
+    assert (G : forall fs st, Forall feature_preserves fs -> Forall P (fst st) -> Forall P (fst (fold_left (feature_apply q wt regs) fs st))).
     { induction fs as [|f r IH]; intros st Hfs Hst; cbn [fold_left]; [exact Hst|].
       inversion Hfs; subst. apply IH; [assumption|]. apply feature_apply_preserves; assumption. }
-    destruct (fold_left (feature_apply q regs) (w_features w) (out0, t)) as [out t'] eqn:E2.
+    destruct (fold_left (feature_apply q wt regs) (w_features w) (out0, t)) as [out t'] eqn:E2.
     exists out, t'. split; [reflexivity|].
     specialize (G (w_features w) (out0, t) Hf Hout0). rewrite E2 in G. exact G.
   Qed.
